@@ -1,6 +1,9 @@
 package doerner
 
 import (
+	"errors"
+
+	"github.com/taurusgroup/multi-party-sig/internal/round"
 	"github.com/taurusgroup/multi-party-sig/pkg/math/curve"
 	"github.com/taurusgroup/multi-party-sig/pkg/party"
 	"github.com/taurusgroup/multi-party-sig/pkg/pool"
@@ -44,6 +47,13 @@ func Keygen(group curve.Curve, receiver bool, selfID, otherID party.ID, pl *pool
 	return keygen.StartKeygen(group, receiver, selfID, otherID, nil, nil, pl)
 }
 
+// startError returns a StartFunc that refuses to start with the given error.
+func startError(err error) protocol.StartFunc {
+	return func([]byte) (round.Session, error) {
+		return nil, err
+	}
+}
+
 // RefreshReceiver initiates a key-refresh protocol, from the Receiver's perspective.
 //
 // The goal of this protocol is to refresh the shares of the secret key, and other auxilary
@@ -52,6 +62,9 @@ func Keygen(group curve.Curve, receiver bool, selfID, otherID party.ID, pl *pool
 // This won't change the value of the public key, but it will change the value of the chaining key.
 // If this isn't desirable, then the new chain key can simply be overwritten with the previous value.
 func RefreshReceiver(config *ConfigReceiver, selfID, otherID party.ID, pl *pool.Pool) protocol.StartFunc {
+	if config == nil || config.Public == nil {
+		return startError(errors.New("doerner.RefreshReceiver: config is nil"))
+	}
 	return keygen.StartKeygen(config.Group(), true, selfID, otherID, config.SecretShare, config.Public, pl)
 }
 
@@ -59,6 +72,9 @@ func RefreshReceiver(config *ConfigReceiver, selfID, otherID party.ID, pl *pool.
 //
 // See RefreshReceiver.
 func RefreshSender(config *ConfigSender, selfID, otherID party.ID, pl *pool.Pool) protocol.StartFunc {
+	if config == nil || config.Public == nil {
+		return startError(errors.New("doerner.RefreshSender: config is nil"))
+	}
 	return keygen.StartKeygen(config.Group(), false, selfID, otherID, config.SecretShare, config.Public, pl)
 }
 
